@@ -41,6 +41,8 @@ pub fn write_float<F: Float, const FORMAT: u128>(
 where
     <F as Float>::Unsigned: WriteInteger + FormattedSize,
 {
+    #[cfg(lexical_verif)]
+    lexical_util::verif::hit(lexical_util::verif::WRITE_BINARY);
     // PRECONDITIONS
 
     // Assert no special cases remain, no negative numbers,
